@@ -210,6 +210,14 @@ def gen_history(tier, seed):
                 else:
                     lines.append(f"mkstock ${hb} {tl} a:${ha} l:${ho}")
                 lines.append(f"mklt ${ho} {tl} {r.choice(['start', 'middle', 'end', 'centre'])}")
+                # a lifetime parameter given as an array: over dimensions of the model (any order), or over
+                # foreign ones that happen to have the same lengths
+                pd_ = r.choice([[7, 1], [1, 7], [7], [1], [7, 4], [4, 7], [7, 4], [0, 1]])
+                hp = nxt[0]; nxt[0] += 1
+                lines.append(f"dset ${hp} " + " ".join(f"${x}" for x in pd_))
+                hpa = nxt[1]; nxt[1] += 1
+                lines.append(f"full ${hpa} ${hp} 4")
+                lines.append(f"mkltp ${hb} {tl} middle ${hpa}")
                 cnt("mkstock")
                 lines.append("dumpall")
                 continue
